@@ -22,6 +22,8 @@ LEVEL_TEXT = ("Proof (F/M for transaction commits; partial overall): two tables 
               "uscan_nothing_unique for the unique validator with its stale-entry behaviour). violations_exact_partial: after a merge the recorded CHECK, NOT NULL "
               "and FOREIGN KEY violations are exactly the rows of the merged data breaking them; for UNIQUE exactness is refuted on the faithful model "
               "(uniq_violations_exact_refuted: a merge moving a unique value between rows records a violation on a valid table) and completeness is not proved: "
+              "[fkadd cases: FOREIGN KEY t(b) -> p(b) on a non-pk column that is NEW in the merge — fkadd_dangling_exact: the model's violation set is exactly the "
+              "child rows whose non-NULL reference has no parent row with that value; fkadd_oracle_on_model: the oracle accepts the model's observation for every input] "
               "the unique validator's verdict is the artifact set left after clearArtifact (urec); 'empty set => unique' is open, so the model's commit also "
               "re-validates uniqueness of the merged table (never decisive on the implementation so far).")
 LEVEL_NOTE = ("Trusted: Coq kernel, Go harness + Python glue. Oracle hypothesis, not verified: go-mysql-server / table-writer statement-level enforcement "
@@ -29,7 +31,8 @@ LEVEL_NOTE = ("Trusted: Coq kernel, Go harness + Python glue. Oracle hypothesis,
               "comparison), artifact maps (sets of keys per violation type). Not covered: CASCADE / SET NULL actions, several unique keys per table, NOT NULL "
               "added by a schema merge, foreign_key_checks=0 sessions (explicit exception: outside the enforcement hypothesis; probed by hand: an orphan row is committed).")
 THEOREMS = ["committed_consistent", "validators_sound", "uscan_nothing_unique", "exec_c_enforces", "failed_commit_keeps_committed_state",
-            "row_bad_exact", "fk_bad_exact", "violations_exact_partial", "merge_keeps_notnull"]
+            "row_bad_exact", "fk_bad_exact", "violations_exact_partial", "merge_keeps_notnull",
+            "fkadd_dangling_exact", "fkadd_oracle_on_model", "fkadd_check_on_model"]
 REFUTED = ["uniq_violations_exact_refuted"]
 RULE = ("txn cases: C23-style schedules over both tables (child keys 1-4, parent keys 101-103; values 0-2/NULL, child.b in parent pks) so that single statements "
         "and combinations of valid transactions frequently violate UNIQUE / CHECK / FK; committed database dumped after every statement. merge cases: two "
